@@ -63,6 +63,12 @@ class C02(Prop):
                 v1 = variants(r, v0)
                 if v1 == v0:
                     v1 = v0 + b"x"
+                if api == "snap" and r.chance(1, 8):
+                    # the stored text holds a line that only LOOKS like the terminator (padded); the received text is what a reader
+                    # that mistook it for the terminator would return
+                    head = G.gen_text(r, maxlines=3).rstrip(b"\n") or b"alpha"
+                    v0 = head + b"\n" + r.choice([b"--- ", b" ---", b"---\t", b"\t---", b"  ---  "]) + b"\n" + r.choice([b"beta", b"tail\nmore", b""])
+                    v1 = head
                 a = G.op_match_snap(0, test, [v0]) if api == "snap" else G.op_match_doc("stand", 0, test, v0)
                 b = G.op_match_snap(0, test, [v1]) if api == "snap" else G.op_match_doc("stand", 0, test, v1)
             elif api == "yaml":
